@@ -331,29 +331,11 @@ def _all_forwarded(rep, fn, call):
 
 # ------------------------------------------------------------------------ R16.4
 def r164(ctx, rep):
-    fn = ctx.project.need_fn('petl.util.materialise:CacheView.__iter__')
-    room = None
-    complete = None
-    for n in own_nodes(fn.node):
-        if isinstance(n, ast.If):
-            body_txt = [norm(s) for s in n.body]
-            conj = n.test.values if (isinstance(n.test, ast.BoolOp) and isinstance(n.test.op, ast.And)) else [n.test]
-            if any(t.startswith('self.cache.append(') for t in body_txt):
-                rest = [norm(c) for c in conj if 'nserved' not in norm(c) and not _is_hwm(c)]
-                room = ' and '.join(rest)
-            if any(t == 'self.cachecomplete = True' for t in body_txt):
-                complete = ' and '.join(norm(c) for c in conj)
-    if room is None or complete is None:
-        raise AnalysisError('anchor vanished: append / completeness tests of CacheView.__iter__')
-    if room == complete:
-        rep.held('R16.4', fn, 'completeness == room', room, fn.node)
+    from .common import cacheview_flag_truthful
+    fn, cex = cacheview_flag_truthful(ctx)
+    if cex is None:
+        rep.held('R16.4', fn, 'completeness == room', 'complete implies room on the grid n in {None,0,1,2,3} x len(cache) in 0..4', fn.node)
     else:
         rep.violated('R16.4', fn, 'completeness == room',
-                     'the memo is declared complete under `%s` but rows stop being memoised under `not (%s)`: when they '
-                     'differ a full pass with a full memo marks it complete and later passes lose the remaining rows'
-                     % (complete, room), fn.node)
-
-
-def _is_hwm(c):
-    return isinstance(c, ast.Compare) and len(c.ops) == 1 and isinstance(c.ops[0], ast.Eq) and \
-        ('len(self.cache)' in (norm(c.left), norm(c.comparators[0])))
+                     cex + ': a full pass with a full memo marks it complete and later passes lose the remaining rows',
+                     fn.node)
